@@ -630,6 +630,67 @@ impl<'c, Q: Queue> Interp<'c, Q> {
         self.stats.hit("bulk_mutation");
     }
 
+    /// iter_mut driven by for_each / fold / take / skip / step_by / a `for` loop over `&mut q`, the
+    /// priorities being written from inside the closure (the iterator is alive during every write)
+    pub fn do_iter_mut_each(&mut self, how: u8, k: u8, rw: Rewrite, rwmask: u64) {
+        let before = self.model.clone();
+        let n = before.len();
+        let r = self.resolve_rw(rw);
+        let k = (k as usize) % (n + 2);
+        let mut visited: Vec<(u32, u32, i64, i64)> = Vec::new();
+        self.q.iter_mut_each(how, k, &mut |key: &mut Key, p: &mut Prio| {
+            tick(FaultKind::Callback);
+            let old = p.v;
+            if bit(rwmask, key.id) {
+                p.v = r.apply(key.id, old);
+            }
+            visited.push((key.id, key.tag, old, p.v));
+        });
+        let want_count = match how % 8 {
+            3 => k.min(n),
+            4 => n - k.min(n),
+            5 => (n + k) / (k + 1),
+            _ => n,
+        };
+        let mut ids: Vec<u32> = visited.iter().map(|v| v.0).collect();
+        ids.sort_unstable();
+        let dup = ids.windows(2).any(|w| w[0] == w[1]);
+        if dup {
+            self.fail(Group::Alias, "each_visited_twice", format!("iter_mut internal iteration (how {}) visited an element twice: {:?}", how % 8, ids));
+        } else if visited.len() != want_count {
+            self.fail(
+                Group::IterMutContract,
+                "each_count",
+                format!("iter_mut internal iteration (how {}, k {}) visited {} of {} elements, expected {}", how % 8, k, visited.len(), n, want_count),
+            );
+        }
+        let mut changed = 0;
+        for (id, tag, old, new) in visited {
+            match before.get(id) {
+                None => self.fail(Group::IterMutContract, "each_not_stored", format!("iter_mut visited ({},{}) which is not stored", id, old)),
+                Some((t, p)) => {
+                    if p != old {
+                        self.fail(Group::Content, "each_prio", format!("iter_mut showed priority {} for item {}, stored {}", old, id, p));
+                    } else if t != tag {
+                        self.fail(Group::Tag, "each_tag", format!("iter_mut showed payload {} for item {}, stored {}", tag, id, t));
+                    }
+                    if new != old {
+                        changed += 1;
+                    }
+                    self.model.set_prio(id, new);
+                }
+            }
+        }
+        if changed > 0 {
+            self.stats.hit("iter_mut_rewrite");
+            self.stats.hit("iter_mut_each_rewrite");
+            self.mark_disturb();
+        }
+        self.order_on = true;
+        self.stats.hit("bulk_mutation");
+        self.force_drain = true;
+    }
+
     /// run a call program against a double-ended exact-size iterator
     fn run_prog_full<'a, I, F>(it: &mut I, prog: &[ItCall], f: F) -> Vec<Obs>
     where
